@@ -11,8 +11,8 @@ META = dict(
     rule=('(a) grid programs = sink x source: sinks {tainted<T*> copy/direct/list initialisation and assignment, tainted_volatile<T*> assignment through *pp, pp[i], a struct '
           'field and an array-of-pointers cell, invoke argument, by-value struct argument, tainted<Fn> from sandbox_callback, tainted_volatile<Fn> from a callback / '
           'sandbox function address of another signature} x sources {raw T*, const T*, raw function pointer, array / std::array of raw pointers, tainted / opaque / '
-          'callback of ANOTHER sandbox type, plain struct holding a pointer, lambda, functor}; register_callback with 20 malformed signatures (no sandbox parameter, '
-          'sandbox by value / pointer / const ref, plain parameter in each position, array parameter, tainted_volatile parameter, plain / hint return, tainted and tainted_opaque wrappers of another '
+          'callback of ANOTHER sandbox type, plain struct holding a pointer, lambda, functor}; register_callback with 27 malformed signatures (no sandbox parameter, '
+          'sandbox by value / pointer / const ref, plain parameter in each position, array parameter, tainted_volatile parameter, plain / hint return, references to tainted / tainted_opaque as parameter and return, tainted and tainted_opaque wrappers of another '
           'sandbox type as parameter and as return). Every program is compiled against the model backend twice (16-bit and pointer-wide 64-bit pointer representation) and must be rejected by the compiler with RLBox compile checks ON; positive controls of the same shapes with legal sources must be '
           'accepted. (b) assign_raw_pointer on tainted and tainted_volatile and UNSAFE_accept_pointer for every address of [base-4096, base+64KiB+4096), null, the other '
           'live instance, stack/heap/code and aliasing addresses, mask and registry modes: abort iff outside, exact value otherwise. states = grid programs + 1, '
@@ -103,6 +103,14 @@ def grid():
         ('hint return', 'hb_t f(sbx_t&)', False),
         ('parameter of another sandbox type', 'tn<int> f(sbx_t&, tn2<int>)', False),
         ('return of another sandbox type', 'tn2<int> f(sbx_t&)', False),
+        ('opaque parameter by reference', 'tn<int> f(sbx_t&, to<int*>&)', False),
+        ('opaque parameter by const reference', 'tn<int> f(sbx_t&, const to<int>&)', False),
+        ('opaque parameter by rvalue reference', 'void f(sbx_t&, tn<int>, to<int>&&)', False),
+        ('opaque return by reference', 'to<int*>& f(sbx_t&)', False),
+        ('tainted parameter by reference', 'tn<int> f(sbx_t&, tn<int>&)', False),
+        ('tainted parameter by const reference', 'tn<int> f(sbx_t&, const tn<int*>&)', False),
+        ('tainted return by reference', 'tn<int>& f(sbx_t&, tn<int>)', False),
+        ('const tainted parameter by value', 'tn<int> f(sbx_t&, const tn<int>)', True),
         ('opaque parameter of another sandbox type', 'tn<int> f(sbx_t&, to2<int*>)', False),
         ('opaque parameter of another sandbox type (last)', 'void f(sbx_t&, tn<int>, to2<int>)', False),
         ('opaque return of another sandbox type', 'to2<int*> f(sbx_t&)', False),
